@@ -14,6 +14,7 @@ import (
 	"encoding/binary"
 	"encoding/hex"
 	"fmt"
+	"runtime"
 	"strings"
 	"sync"
 	"sync/atomic"
@@ -1424,14 +1425,18 @@ func runC14(res *hx.Result, rng *hx.Rng, tier string, outdir string) {
 		"raw and generated writes, UpdateDelay, SignalBoom, reads) plus the 48 scripted collisions of one id (signal A, optional unregister naming A or B, signal B on the same or another connection); " +
 		"concurrent: 3-4 threads (server mailbox, second mailbox through DirectClient, the implementor's goroutine, a second connection) x 2-4 operations, " +
 		"stamped by one atomic counter, half of them with a write held inside the validator while others complete; " +
-		"non-trivial = an invalid or wrongly-typed write is present (sequential), a user id collision, a re-registration or an invalid write is present (subscriber table), or two operations of different threads overlap (concurrent); distinct by sha256"
-	nSeq, nReg, nConc := 120, 60, 80
+		"several properties (an object built with bus.NewBasicObject declaring 2-8 int32 properties): 3-5 threads (service-side UpdateProperty goroutines, further mailboxes of the object, " +
+		"DirectClient, a server connection) x 2-4 reads / writes by name or uid / updates mostly of DIFFERENT properties, a subscriber per property, final reads; and rounds of bursts released by a spin barrier — " +
+		"one writer per property with read-back, a polling reader and final reads of every property, or several writers of one property with subscribers on all — that stop at the first failure; " +
+		"non-trivial = an invalid or wrongly-typed write is present (sequential), a user id collision, a re-registration or an invalid write is present (subscriber table), two operations of different threads overlap (concurrent), " +
+		"two accepted writes of different threads to different properties overlap (several properties; for a configuration of rounds: in a sampled round); distinct by sha256"
+	nSeq, nReg, nConc, nMulti := 120, 60, 80, 40
 	if tier == "thorough" {
-		nSeq, nReg, nConc = 4000, 3000, 4000
+		nSeq, nReg, nConc, nMulti = 4000, 3000, 4000, 2000
 	}
 	on := c14Probe(res)
-	cf := hx.NewCases(outdir, "C14", "From QV Require Import Bytes Property PropertySubs Lin C14Run.", "mismatches cfg scases ccases rcases", res,
-		"scases", "scase", "ccases", "ccase", "rcases", "rcase")
+	cf := hx.NewCases(outdir, "C14", "From QV Require Import Bytes Property PropertySubs PropertyMulti Lin C14Run.", "mismatches cfg scases ccases rcases mcases", res,
+		"scases", "scase", "ccases", "ccase", "rcases", "rcase", "mcases", "mcase")
 	cf.Extra = append(cf.Extra, "Local Open Scope N_scope.", fmt.Sprintf("Definition cfg := mkcfg %s.", hx.Bool(on)))
 	c14Sequential(res, rng, cf, nSeq)
 	if tier == "thorough" {
@@ -1440,6 +1445,14 @@ func runC14(res *hx.Result, rng *hx.Rng, tier string, outdir string) {
 		res.Notes = append(res.Notes, "exhaustive part: every sequence of length <= 5 over {get, set 5, set 7, set -1, set String(abcd), UpdateDelay(9)} on a fresh object with one subscriber (9330 sequences)")
 	}
 	c14Concurrent(res, rng, cf, nConc)
-	c14Registry(res, rng, cf, nReg) // last: the sequences above keep the random stream they had before this family existed
+	c14Registry(res, rng, cf, nReg) // after the two above: they keep the random stream they had before this family existed
+	// objects with several properties (c14multi.go); these schedules want several CPUs
+	if prev := runtime.GOMAXPROCS(0); prev < 4 {
+		runtime.GOMAXPROCS(4)
+		defer runtime.GOMAXPROCS(prev)
+	}
+	res.Notes = append(res.Notes, fmt.Sprintf("several-property families ran with GOMAXPROCS=%d on %d CPUs", runtime.GOMAXPROCS(0), runtime.NumCPU()))
+	c14MultiConcurrent(res, rng, cf, nMulti)
+	c14MultiRace(res, rng, cf, tier)
 	cf.Flush()
 }
